@@ -3,7 +3,10 @@
 // differentially against a single-threaded evaluation of the same calls.
 #include <pthread.h>
 #include <sched.h>
+#include <spawn.h>
+#include <sys/wait.h>
 #include <time.h>
+#include <unistd.h>
 
 #include "api.hpp"
 #include "main.hpp"
@@ -89,7 +92,62 @@ static void *thread_main(void *arg) {
   return nullptr;
 }
 
+extern char **environ;
+// Cold start: the workload is executed by a fresh process (this binary re-executed in replay mode) whose very first
+// library calls are the concurrent ones; the single-threaded evaluation comes afterwards.  Lazily initialised shared
+// state (tables built on first use, cached lookups) is only racy in that situation.
+static Verdict c08_cold_spawn(const KV &c, Ctx &ctx) {
+  KV cc = c;
+  cc.seti("cold_exec", 1);
+  char path[] = "/tmp/vf-c08-cold-XXXXXX";
+  int fd = mkstemp(path);
+  if (fd < 0) return "";
+  std::string text = cc.serialize();
+  (void)!write(fd, text.data(), text.size());
+  close(fd);
+  int pp[2];
+  if (pipe(pp)) { unlink(path); return ""; }
+  std::string budget = std::to_string(ctx.tier.budget_ms);
+  const char *argv[] = {"/proc/self/exe", "--prop", "C08", "--mode", "replay", "--case", path, "--tier", ctx.tier.thorough ? "thorough" : "quick", "--budget-ms", budget.c_str(), nullptr};
+  posix_spawn_file_actions_t fa;
+  posix_spawn_file_actions_init(&fa);
+  posix_spawn_file_actions_adddup2(&fa, pp[1], 1);
+  posix_spawn_file_actions_addclose(&fa, pp[0]);
+  pid_t pid = 0;
+  int rc_ = posix_spawn(&pid, "/proc/self/exe", &fa, nullptr, (char *const *)argv, environ);
+  posix_spawn_file_actions_destroy(&fa);
+  close(pp[1]);
+  std::string out;
+  if (rc_ == 0) {
+    char buf[4096];
+    ssize_t n;
+    while ((n = read(pp[0], buf, sizeof buf)) > 0) out.append(buf, (size_t)n);
+  }
+  close(pp[0]);
+  int st = 0;
+  if (rc_ == 0) waitpid(pid, &st, 0);
+  unlink(path);
+  if (rc_ != 0) return "";
+  ctx.st.executed++;
+  size_t q = out.find("REPLAY-FAIL ");
+  if (q != std::string::npos) {
+    std::string v = out.substr(q + 12);
+    v = v.substr(0, v.find('\n'));
+    return "C08 in a fresh process whose first library calls are the concurrent ones: " + v;
+  }
+  if (WIFEXITED(st) && WEXITSTATUS(st) >= 86 && WEXITSTATUS(st) <= 89) return "C08 ThreadSanitizer reports a data race in a fresh process whose first library calls are the concurrent ones (see the report above in the log)";
+  if (!(WIFEXITED(st) && WEXITSTATUS(st) == 0)) return "C08 a fresh process running the workload with threads first terminated abnormally (wait status " + std::to_string(st) + ")";
+  if (out.find("C08-COLD nontrivial") != std::string::npos) {
+    if (ctx.st.nontriv(fnv(c.serialize())) && ctx.st.samples.size() < ctx.st.sample_cap) ctx.st.sample("cold start: " + out.substr(out.find("C08-COLD nontrivial") + 20, 160).substr(0, out.substr(out.find("C08-COLD nontrivial") + 20, 160).find('\n')));
+    ctx.st.cls("c08/cold-start");
+  } else
+    ctx.st.cls("c08/cold-start-no-overlap");
+  return "";
+}
+
 static Verdict c08_check(const KV &c, Ctx &ctx) {
+  if (c.geti("cold") != 0 && c.geti("cold_exec") == 0) return c08_cold_spawn(c, ctx);
+  const bool threads_first = c.geti("cold_exec") != 0;
   int nreq = (int)c.geti("nreq");
   if (nreq < 1) return "";
   if (nreq > 10) nreq = 10;
@@ -123,9 +181,9 @@ static Verdict c08_check(const KV &c, Ctx &ctx) {
     th[(size_t)i].cd = (struct crypt_data *)calloc(1, DS);
     th[(size_t)i].gaps = (int)((unsigned char)c.get("gaps")[(size_t)i % (c.get("gaps").size() ? c.get("gaps").size() : 1)]) * 257;
   }
-  // what every call returns when run alone (single-threaded, before the threads start)
+  // what every call returns when run alone (single-threaded; before the threads start, or - cold start - after them)
   std::map<std::pair<int, int>, CallRes> alone;
-  {
+  auto run_alone = [&]() {
     ThreadCtx solo;
     solo.cd = (struct crypt_data *)calloc(1, DS);
     for (auto &t : th)
@@ -136,13 +194,15 @@ static Verdict c08_check(const KV &c, Ctx &ctx) {
         }
     free(solo.cd);
     free(solo.ra);
-  }
+  };
+  if (!threads_first) run_alone();
   g_use_barrier = c.geti("barrier") != 0;
   if (g_use_barrier) pthread_barrier_init(&g_bar, nullptr, (unsigned)T);
   std::vector<pthread_t> tid((size_t)T);
   for (int i = 0; i < T; i++) pthread_create(&tid[(size_t)i], nullptr, thread_main, &th[(size_t)i]);
   for (int i = 0; i < T; i++) pthread_join(tid[(size_t)i], nullptr);
   if (g_use_barrier) pthread_barrier_destroy(&g_bar);
+  if (threads_first) run_alone();
   Verdict v;
   std::map<int, std::set<int>> method_threads;
   for (int i = 0; i < T && v.empty(); i++) {
@@ -174,6 +234,7 @@ static Verdict c08_check(const KV &c, Ctx &ctx) {
       shared_methods++;
       ctx.st.cls(std::string("c08-concurrent/") + METHOD_NAME[kv.first]);
     }
+  if (threads_first && overlapping && shared_methods) printf("C08-COLD nontrivial %d threads x %zu calls, %d overlapping thread pairs, %d methods run by >= 2 threads\n", T, per, overlapping, shared_methods);
   if (overlapping && shared_methods) {
     if (ctx.st.nontriv(fnv(c.serialize())) && ctx.st.samples.size() < ctx.st.sample_cap) ctx.st.sample(std::to_string(T) + " threads x " + std::to_string(per) + " calls, " + std::to_string(overlapping) + " overlapping thread pairs, " + std::to_string(shared_methods) + " methods run by >= 2 threads" + (g_use_barrier ? ", barrier start" : ""));
     ctx.st.cls(std::string("c08/T") + (T <= 3 ? "2-3" : T <= 8 ? "4-8" : "9-16") + (g_use_barrier ? "/barrier" : "/free"));
@@ -208,6 +269,7 @@ static int c08_run(Ctx &ctx) {
     }
     c.set("ops", ops);
     c.set("gaps", g::rbytes((size_t)T, 0));
+    c.seti("cold", g::coin(1, 3));
     return c;
   });
 }
